@@ -442,8 +442,28 @@ def filler_form(rng):
     return long_string(rng)
 
 
+def error_form(rng):
+    """a self-contained erroneous form: exactly one error, reported when the form (or the separator after it) is read, nothing of it
+    left open -- the client takes the error (`parser/error` flushes) and goes on with the next form"""
+    k = rng.below(7)
+    if k == 0:
+        return rng.choice([b"1abc", b"9z", b"0x", b"12e", b"7up.and.more"])
+    if k == 1:
+        return b":k" + rng.choice([b"\xff", b"\xc3", b"\xe0\x80\x80"])
+    if k == 2:
+        return rng.choice([b"sy\xfe", b"\xff\xfe\xfd", b"a\xc0\xaf"])
+    if k == 3:
+        return b")"
+    if k == 4:
+        return b"]"
+    if k == 5:
+        return b"}"
+    return rng.choice([b"3long-token-that-fills-the-scratch-buffer", b"1\xe9"])
+
+
 def form_sequence(rng):
-    """list of complete top-level forms (each followed by one separator when joined); later forms tend to be shorter than earlier ones"""
+    """list of complete top-level forms (each followed by one separator when joined); later forms tend to be shorter than earlier ones;
+    one form in three sequences is erroneous (error taken, parser flushed, later forms must parse as in a fresh parser)"""
     forms = []
     n = rng.range(2, 7)
     for i in range(n):
@@ -451,6 +471,8 @@ def form_sequence(rng):
             forms.append(tiny_long_string(rng))
         else:
             forms.append(filler_form(rng))
+    if rng.chance(1, 3):
+        forms.insert(rng.below(len(forms) + 1), error_form(rng))
     forms.append(tiny_long_string(rng))
     return forms
 
